@@ -145,7 +145,7 @@ def run(tier, seed, **opts):
         "one CLI run; non-trivial = distinct (file, assembly, buffer, line length) with at least one non-empty record "
         "(CLI: run exited 0 and wrote records)"
     )
-    line_lengths_all = (1, 2, 3, 4, 5, 7, 60)
+    line_lengths_all = (1, 2, 3, 5, 7, 60)
     with G.quiet_logging(), G.workdir() as d:
         path = d / "t.fa"
         # ---- 1. single-row scaffolds, exhaustive intervals
@@ -173,7 +173,7 @@ def run(tier, seed, **opts):
                             for e in range(s, L + 1):
                                 for strand in (1, -1, 0):
                                     n += 1
-                                    lls = line_lengths_all if not quick else (60, line_lengths_all[n % 6])
+                                    lls = line_lengths_all if not quick else (60, line_lengths_all[n % 5])
                                     for ll in lls:
                                         scs = [(f"x{n % 7}", [["F", r.name, s, e, strand]])]
                                         msgs = stream_check(fi, seqs, scs, ll, False)
@@ -217,7 +217,7 @@ def run(tier, seed, **opts):
                 close_index(fi)
         G.remove_with_caches(path)
         # ---- 3. random multi-row, multi-scaffold assemblies over random files
-        for k in range(400 if quick else 12000):
+        for k in range(400 if quick else 10000):
             if col.full:
                 break
             case = G.random_case(rng, max_len=90 if quick else 300)
@@ -281,8 +281,8 @@ def run(tier, seed, **opts):
             "direct: records of 12/5/1 residues in 24 layouts, all intervals, 3 strands, buffers "
             + ("1,2,3,width-1..width+1,5,11,12,13,250000" if quick else "1..14,250000")
             + ", line lengths "
-            + ("60 and one of 1,2,3,4,5,7" if quick else "1,2,3,4,5,7,60")
-            + f"; gaps 0..3*buffer+2 for buffers 1..{8 if quick else 13}; {400 if quick else 12000} random files x 6 random assemblies "
+            + ("60 and one of 1,2,3,5,7" if quick else "1,2,3,5,7,60")
+            + f"; gaps 0..3*buffer+2 for buffers 1..{8 if quick else 13}; {400 if quick else 10000} random files x 6 random assemblies "
             f"(<= 3 scaffolds x <= 5 rows); {n_cli} pretext-to-asm runs (2-4 records, contigs 40-400, one input with 250000 / 500001 N runs "
             "and a 300017-residue contig to cross the command's fixed 250000 buffer)"
         ),
